@@ -617,7 +617,9 @@ fn c03_step(po: &HubObs, a: &Action, out: &Outcome, qo: &HubObs, cx: &mut Cx) {
                 }
                 // recorded rates are the pool rates of the moment: st unchanged from the pre-state view,
                 // bsei = bond / (claims - fee burnt by this very unbond)
-                let unbonded: u128 = fx_attr(fx, HUB, "unbonded_amount").and_then(|s| s.parse().ok()).unwrap_or(amt);
+                // what this unbond was credited after the peg fee: the closed batch's total minus what was pending before
+                // (read from the history and CurrentBatch queries, not from response attributes)
+                let unbonded: u128 = if tok == BSEI { h.bsei_amount.u128().saturating_sub(po.batch.requested_bsei_with_fee.u128()) } else { amt };
                 let fee = amt - unbonded.min(amt);
                 let exp_b = if tok == BSEI { expected_rate(po.state.total_bond_bsei_amount.u128(), po.b_claims() - fee) } else { brate };
                 // a pool without booked stake redeems at zero (its reported rate 1 is only nominal)
